@@ -9,6 +9,12 @@ git apply --check "$M/patch.diff" || { echo "CONFIRM $M: patch does not apply"; 
 git apply "$M/patch.diff"
 timeout 1500 cargo test --workspace --no-fail-fast --offline > "$M/confirm-tests.log" 2>&1
 T=$?
+if [ "$T" != 0 ]; then
+  # some tests use fixed /tmp file names and collide with other copies of the suite: one re-run
+  sleep 20
+  timeout 1500 cargo test --workspace --no-fail-fast --offline > "$M/confirm-tests.log" 2>&1
+  T=$?
+fi
 P=$(grep -E "^test result" "$M/confirm-tests.log" | awk '{s+=$4; f+=$6} END {print s" passed "f" failed"}')
 ( cd "$WT" && timeout 900 bash "$M/demo/run.sh" > "$M/confirm-demo-with.log" 2>&1 ); W=$?
 git apply -R "$M/patch.diff"
